@@ -1,4 +1,6 @@
 import N0Verif.Proofs.XPathLeaves
+import N0Verif.Proofs.XPathListRoot
+import N0Verif.Proofs.XPathSpellings
 /-!
 # C01 — every enumerated xpath resolves to exactly the leaf it names
 
@@ -126,6 +128,212 @@ theorem C01_resolves (cls : Cls) (kvs : List (Str × Val)) (ht : PlainTree (.dic
     simp
   exact ⟨2 * p.length, fun fuel hf => C01_resolves_node cls kvs p c d hpp hne hg fuel hf⟩
 
+/-! ### list-rooted containers addressed with a leading index -/
+
+/-- **Tree layer, list root, any spelling.**  If a token list spells position `p` of a list-rooted
+tree, `n0list._find` returns exactly the node at `p` (index tokens are walked by `n0list._find`,
+also through nested lists; the first dict element is handed to `n0dict._find`). -/
+theorem C01_findL_spelled (cls : Cls) (xs : List Val) (rl : Bool) (toks : List Str) (p : Pos) (c : Val)
+    (hs : Spells toks (.list cls xs) p c) (hne : toks ≠ []) (fuel : Nat) (hf : fuel ≥ 2 * toks.length) :
+    ∃ r, findL fuel (.list cls xs) [] toks (.at []) rl slash = .ok (.list cls xs, r) ∧
+      FoundAt (.list cls xs) [] p c r :=
+  findL_spells (.list cls xs) rl [] hs hne fuel [] slash ⟨cls, xs, rfl⟩ rfl hf
+
+/-- **Resolution on a list root.**  For a list-rooted tree with plain keys the canonical path of
+every node at a position `[n] ++ rest` — written without a leading '/' (`[0]/a/b[1]`) or with it
+(`/[0]/a/b[1]`) — resolves through item access and `get` to exactly that node; the tree is
+unchanged. -/
+theorem C01_list_root_node (cls : Cls) (xs : List Val) (n : Nat) (rest : Pos) (c d : Val)
+    (hp : PlainPos rest) (hget : getAt (.list cls xs) (.idx n :: rest) = some c)
+    (fuel : Nat) (hf : fuel ≥ 2 * (rest.length + 1)) :
+    let t := Val.list cls xs
+    let p : Pos := .idx n :: rest
+    getItem fuel t (renderPos p) = (t, .ok c) ∧ get fuel t (renderPos p) d = (t, .ok c) ∧
+    getItem fuel t (slash ++ renderPos p) = (t, .ok c) ∧ get fuel t (slash ++ renderPos p) d = (t, .ok c) := by
+  intro t p
+  have hp' : PlainPos p := hp
+  have hs := spells_merged p t c hp' hget
+  have hlen := mergedToks_length_le p
+  have hne := mergedToks_ne_nil p (by simp [p])
+  have hpl : p.length = rest.length + 1 := by simp [p]
+  have htok1 : tokenize (renderPos p) = mergedToks p := tokenize_render_idx n rest hp
+  have htok2 : tokenize (slash ++ renderPos p) = mergedToks p := tokenize_render p hp'
+  have hform : renderPos p = '[' :: (natStr n ++ ']' :: renderPos rest) := by
+    simp [p, renderPos, renderSeg, bracket]
+  have hq1 : startsWith (renderPos p) ['?'] = false := by rw [hform]; simp [startsWith]
+  have hc1 : hasPathChar (renderPos p) = true := by rw [hform]; simp [hasPathChar]
+  have hq2 : startsWith (slash ++ renderPos p) ['?'] = false := by simp [slash, startsWith]
+  have hc2 : hasPathChar (slash ++ renderPos p) = true := by simp [hasPathChar, slash]
+  refine ⟨?_, ?_, ?_, ?_⟩
+  · exact getCore_list_path fuel cls xs _ _ true true p c hq1 hc1 (by rw [htok1]; exact hs) (by rw [htok1]; exact hne)
+      (by rw [htok1]; omega)
+  · exact getCore_list_path fuel cls xs _ _ false true p c hq1 hc1 (by rw [htok1]; exact hs) (by rw [htok1]; exact hne)
+      (by rw [htok1]; omega)
+  · exact getCore_list_path fuel cls xs _ _ true true p c hq2 hc2 (by rw [htok2]; exact hs) (by rw [htok2]; exact hne)
+      (by rw [htok2]; omega)
+  · exact getCore_list_path fuel cls xs _ _ false true p c hq2 hc2 (by rw [htok2]; exact hs) (by rw [htok2]; exact hne)
+      (by rw [htok2]; omega)
+
+/-- **Bare index on a list root.**  A text without '/' and '[' (`l['0']`, `l.get('-1')`,
+`'last()'`, `'last()-k'`, `'i+j'`) is evaluated by `n0eval` and used as a Python index: every
+index spelling of `C01_index_spellings` returns the element Python indexing gives. -/
+theorem C01_list_root_bare (cls : Cls) (xs : List Val) (n : Nat) (c d : Val) (hx : xs[n]? = some c)
+    (fuel : Nat) (s : Str)
+    (hsp : s = natStr n ∨ s = '-' :: natStr (xs.length - n) ∨ (n = xs.length - 1 ∧ s = sLast) ∨
+      s = sLast ++ '-' :: natStr (xs.length - 1 - n) ∨ ∃ a b, a + b = n ∧ s = natStr a ++ '+' :: natStr b) :
+    getItem fuel (.list cls xs) s = (.list cls xs, .ok c) ∧ get fuel (.list cls xs) s d = (.list cls xs, .ok c) := by
+  have hlt : n < xs.length := by
+    rcases Nat.lt_or_ge n xs.length with h | h
+    · exact h
+    · rw [List.getElem?_eq_none h] at hx; cases hx
+  obtain ⟨h1, h2, h3, h4, h5⟩ := C01_index_spellings xs.length n hlt
+  have key : ∀ (s : Str) (i : Int), s ≠ [] → (∀ ch ∈ s, bareChar ch = true) → n0eval s = .ok (.int i) →
+      normIdx i xs.length = some n →
+      getItem fuel (.list cls xs) s = (.list cls xs, .ok c) ∧ get fuel (.list cls xs) s d = (.list cls xs, .ok c) := by
+    intro s i hne hb hev hn
+    obtain ⟨hq, hpc⟩ := bare_facts hne hb
+    exact ⟨getCore_list_bare fuel cls xs s _ true true i n c hne hq hpc hev hn hx,
+      getCore_list_bare fuel cls xs s _ false true i n c hne hq hpc hev hn hx⟩
+  have hlastb : ∀ ch ∈ sLast, bareChar ch = true := by rw [sLast_eq]; decide
+  rcases hsp with rfl | rfl | ⟨hn, rfl⟩ | rfl | ⟨a, b, hab, rfl⟩
+  · obtain ⟨i, hev, hn⟩ := h1
+    exact key _ i (natDigits_ne_nil n) (natStr_bare n) hev hn
+  · obtain ⟨i, hev, hn⟩ := h2
+    refine key _ i (by simp) ?_ hev hn
+    intro ch hc
+    simp only [List.mem_cons] at hc
+    rcases hc with rfl | hc
+    · decide
+    · exact natStr_bare _ ch hc
+  · obtain ⟨i, hev, hn'⟩ := h3 hn
+    exact key _ i (by rw [sLast_eq]; simp) hlastb hev hn'
+  · obtain ⟨i, hev, hn⟩ := h4
+    refine key _ i (by rw [sLast_eq]; simp) ?_ hev hn
+    intro ch hc
+    simp only [List.mem_append, List.mem_cons] at hc
+    rcases hc with hc | rfl | hc
+    · exact hlastb ch hc
+    · decide
+    · exact natStr_bare _ ch hc
+  · obtain ⟨i, hev, hn⟩ := h5 a b hab
+    refine key _ i (by simp) ?_ hev hn
+    intro ch hc
+    simp only [List.mem_append, List.mem_cons] at hc
+    rcases hc with hc | rfl | hc
+    · exact natStr_bare _ ch hc
+    · decide
+    · exact natStr_bare _ ch hc
+
+/-! ### every spelling of a path, at the string level
+
+`renderSp lead steps` (defined in `Proofs/XPathSpellings.lean`) is the text of a spelling: prefix
+none / `/` / `//` (`Lead`), each index step attached (`a[0]`, `[0][1]`) or written as a step of its
+own (`a/[0]`, `[0]/[1]`) (`StepSp.idx e sep`), each index as `i`, `-k`, `last()`, `last()-k` or `i+j`
+(`IdxSp`).  `stepsGet` is plain Python indexing along the steps (`xs[i]` with Python's treatment of
+negative `i`: `pyIndex`). -/
+
+/-- the integer an index spelling denotes is what `n0eval` computes from its text -/
+theorem C01_idx_spelling_eval (e : IdxSp) : n0eval e.text = .ok (.int e.val) := e.eval
+
+/-- **tokenisation of a spelling**: the prefix and the `][` / `]/[` choice do not change the tokens -/
+theorem C01_spelling_tokens (lead : Lead) (steps : List StepSp) (hp : PlainSteps steps) :
+    tokenize (renderSp lead steps) = toksOf steps :=
+  tokenize_renderSp lead steps hp
+
+/-- the tokens of a spelling spell the position Python indexing reaches (`posOf`: the steps with
+every index normalised) -/
+theorem C01_spelling_spells (steps : List StepSp) (v c : Val) (hp : PlainSteps steps)
+    (hget : stepsGet v steps = some c) :
+    Spells (toksOf steps) v (posOf v steps) c ∧ getAt v (posOf v steps) = some c :=
+  ⟨spells_steps steps v c hp hget, (spells_steps steps v c hp hget).getAt⟩
+
+/-- **C01 (equivalent spellings, string level, dict root).**  Whatever spelling of a path is used
+(prefix none, `/` or `//`; `][` or `]/[`, `a[i]` or `a/[i]`; each index as `i`, `-k`, `last()`,
+`last()-k` or `i+j`), item access and `get` return the element plain Python indexing returns, and
+the tree is unchanged. -/
+theorem C01_spellings_string (cls : Cls) (kvs : List (Str × Val)) (lead : Lead) (steps : List StepSp)
+    (c d : Val) (hp : PlainSteps steps) (hne : steps ≠ [])
+    (hget : stepsGet (.dict cls kvs) steps = some c) (fuel : Nat) (hf : fuel ≥ 2 * steps.length) :
+    getItem fuel (.dict cls kvs) (renderSp lead steps) = (.dict cls kvs, .ok c) ∧
+    get fuel (.dict cls kvs) (renderSp lead steps) d = (.dict cls kvs, .ok c) :=
+  ⟨getCore_spelling_dict fuel cls kvs lead steps c _ true true hp hne hget hf,
+   getCore_spelling_dict fuel cls kvs lead steps c _ false true hp hne hget hf⟩
+
+/-- **C01 (equivalent spellings, string level, list root addressed with a leading index).** -/
+theorem C01_spellings_string_list (cls : Cls) (xs : List Val) (lead : Lead) (steps : List StepSp)
+    (c d : Val) (hp : PlainSteps steps) (hne : steps ≠ [])
+    (hget : stepsGet (.list cls xs) steps = some c) (fuel : Nat) (hf : fuel ≥ 2 * steps.length) :
+    getItem fuel (.list cls xs) (renderSp lead steps) = (.list cls xs, .ok c) ∧
+    get fuel (.list cls xs) (renderSp lead steps) d = (.list cls xs, .ok c) :=
+  ⟨getCore_spelling_list fuel cls xs lead steps c _ true true hp hne hget hf,
+   getCore_spelling_list fuel cls xs lead steps c _ false true hp hne hget hf⟩
+
+/-- **C01 (`first`, any spelling).**  `first` returns the same element, except that a one-element
+list is unwrapped (that is what `first` is for); both roots. -/
+theorem C01_spellings_first (t : Val) (hroot : (∃ cls kvs, t = .dict cls kvs) ∨ (∃ cls xs, t = .list cls xs))
+    (lead : Lead) (steps : List StepSp) (c d : Val) (hp : PlainSteps steps) (hne : steps ≠ [])
+    (hget : stepsGet t steps = some c) (fuel : Nat) (hf : fuel ≥ 2 * steps.length) :
+    ((∀ cl x, c ≠ .list cl [x]) → first fuel t (renderSp lead steps) d = (t, .ok c)) ∧
+    (∀ cl x, c = .list cl [x] → first fuel t (renderSp lead steps) d = (t, .ok x)) := by
+  have hcore : getCore fuel t (renderSp lead steps) d false false = (t, .ok c) := by
+    rcases hroot with ⟨cls, kvs, rfl⟩ | ⟨cls, xs, rfl⟩
+    · exact getCore_spelling_dict fuel cls kvs lead steps c d false false hp hne hget hf
+    · exact getCore_spelling_list fuel cls xs lead steps c d false false hp hne hget hf
+  refine ⟨fun hc => first_of_getCore hcore hc, ?_⟩
+  intro cl x hcx
+  subst hcx
+  exact first_of_getCore_single hcore
+
+/-- **C01 (headline, `first`).**  Every enumerated pair of a dict-rooted tree with plain keys also
+resolves through `first` (a leaf is a scalar, so nothing is unwrapped). -/
+theorem C01_resolves_first (cls : Cls) (kvs : List (Str × Val)) (ht : PlainTree (.dict cls kvs))
+    (xp : Str) (v d : Val) (h : (xp, v) ∈ xpathEnum (.dict cls kvs)) :
+    ∃ n, ∀ fuel ≥ n, first fuel (.dict cls kvs) xp d = (.dict cls kvs, .ok v) := by
+  rw [C01_enum_is_leaves] at h
+  simp only [List.mem_map] at h
+  obtain ⟨⟨p, c⟩, hm, heq⟩ := h
+  simp only [Prod.mk.injEq] at heq
+  obtain ⟨rfl, rfl⟩ := heq
+  obtain ⟨hg, hp0, hsc⟩ := leaves_sound _ ht p c hm
+  have hpp : PlainPos p ∧ p ≠ [] := by
+    refine ⟨hp0, ?_⟩
+    simp only [leaves] at hm
+    obtain ⟨k, q, rfl, _⟩ := leavesKvs_sound kvs ht p c hm
+    simp
+  refine ⟨2 * p.length, fun fuel hf => ?_⟩
+  have hs := spells_merged p (.dict cls kvs) c hpp.1 hg
+  have hlen := mergedToks_length_le p
+  have htok : tokenize (slash ++ renderPos p) = mergedToks p := tokenize_render p hpp.1
+  have hcore : getCore fuel (.dict cls kvs) (slash ++ renderPos p) d false false = (.dict cls kvs, .ok c) :=
+    getCore_dict_path fuel cls kvs _ d false false p c (by simp [slash, startsWith]) (by simp [hasPathChar, slash])
+      (by rw [htok]; exact hs) (by rw [htok]; exact mergedToks_ne_nil p hpp.2) (by rw [htok]; omega)
+  refine first_of_getCore hcore ?_
+  intro cl x hcx
+  subst hcx
+  simp [Val.isScalar] at hsc
+
+/-- **C01 (an out-of-range index is a miss).**  `stepsMiss t steps`: the steps walk along existing
+nodes and then index a list out of range (Python indexing would raise IndexError there, in any
+of the index spellings; whatever follows).  Then, in every spelling and on both roots, item access
+raises IndexError, `get` returns the default, `first` returns the default (unwrapped if it is a
+one-element list — `first` does that to whatever `_get` gives), and the tree is unchanged. -/
+theorem C01_out_of_range_miss (t : Val) (hroot : (∃ cls kvs, t = .dict cls kvs) ∨ (∃ cls xs, t = .list cls xs))
+    (lead : Lead) (steps : List StepSp) (d : Val) (hp : PlainSteps steps)
+    (hmiss : stepsMiss t steps = true) (fuel : Nat) (hf : fuel ≥ 2 * steps.length) :
+    getItem fuel t (renderSp lead steps) = (t, .error .IndexError) ∧
+    get fuel t (renderSp lead steps) d = (t, .ok d) ∧
+    ((∀ cl x, d ≠ .list cl [x]) → first fuel t (renderSp lead steps) d = (t, .ok d)) := by
+  have hcore : ∀ (d : Val) (raise rl : Bool),
+      getCore fuel t (renderSp lead steps) d raise rl = missResult t d raise := by
+    intro d raise rl
+    rcases hroot with ⟨cls, kvs, rfl⟩ | ⟨cls, xs, rfl⟩
+    · exact getCore_miss_dict fuel cls kvs lead steps d raise rl hp hmiss hf
+    · exact getCore_miss_list fuel cls xs lead steps d raise rl hp hmiss hf
+  refine ⟨?_, ?_, fun hd => first_of_getCore ?_ hd⟩
+  · rw [getItem, hcore]; rfl
+  · rw [XPath.get, hcore]; rfl
+  · rw [hcore]; rfl
+
 /-! Non-vacuity: a concrete tree with nested lists, a list in a list, empty containers. -/
 def exTree : Val :=
   .dict .n0 [(['a'], .dict .plain [(['b'], .list .plain [.int 1, .list .n0 [.str ['x'], .none]]),
@@ -137,5 +345,52 @@ example : xpathEnum exTree =
 example : (getItem 20 exTree ['/', '/', 'a', '/', 'b', '[', '1', ']', '[', '0', ']']).2 = .ok (.str ['x']) := by decide
 example : (getItem 20 exTree ['/', 'a', '/', 'b', '[', 'l', 'a', 's', 't', '(', ')', ']', '/', '[', '-', '2', ']']).2 = .ok (.str ['x']) := by decide
 example : (XPath.get 20 exTree ['a', '/', 'b', '[', '2', ']'] (.str ['D'])).2 = .ok (.str ['D']) := by decide
+
+
+/-- a list root: a dict element, a nested list, a scalar -/
+def exList : Val :=
+  .list .n0 [.dict .plain [(['a'], .dict .plain [(['b'], .list .plain [.int 7, .int 8])])],
+             .list .plain [.str ['x'], .list .n0 [.none, .bool false]],
+             .int 5]
+
+example : getAt exList [.idx 0, .key ['a'], .key ['b'], .idx 1] = some (.int 8) := by decide
+example : (getItem 20 exList ['[', '0', ']', '/', 'a', '/', 'b', '[', '1', ']']) = (exList, .ok (.int 8)) := by decide
+example : (XPath.get 20 exList ['/', '[', '0', ']', '/', 'a', '/', 'b', '[', '1', ']'] (.str ['D'])) = (exList, .ok (.int 8)) := by decide
+-- a path that stays inside `n0list._find` (nested lists)
+example : (getItem 20 exList ['[', '1', ']', '[', '1', ']', '[', '1', ']']) = (exList, .ok (.bool false)) := by decide
+-- bare index texts
+example : (getItem 20 exList ['2']) = (exList, .ok (.int 5)) := by decide
+example : (getItem 20 exList ['-', '1']) = (exList, .ok (.int 5)) := by decide
+example : (XPath.get 20 exList ['l', 'a', 's', 't', '(', ')', '-', '1'] (.str ['D'])).2
+    = .ok (.list .plain [.str ['x'], .list .n0 [.none, .bool false]]) := by decide
+example : (getItem 20 exList ['1', '+', '1']) = (exList, .ok (.int 5)) := by decide
+
+
+/-- spellings: `//a/b[last()]/[-2]`, `a/b/[0+1][last()-1]`, `/[1][0]` on the list root -/
+def exSteps1 : List StepSp := [.key ['a'], .key ['b'], .idx .last false, .idx (.neg 2) true]
+def exSteps2 : List StepSp := [.key ['a'], .key ['b'], .idx (.plus 0 1) true, .idx (.lastMinus 1) false]
+
+example : renderSp .two exSteps1 =
+    ['/', '/', 'a', '/', 'b', '[', 'l', 'a', 's', 't', '(', ')', ']', '/', '[', '-', '2', ']'] := by decide
+example : renderSp .rel exSteps2 =
+    ['a', '/', 'b', '/', '[', '0', '+', '1', ']', '[', 'l', 'a', 's', 't', '(', ')', '-', '1', ']'] := by decide
+example : toksOf exSteps1 = [['a'], ['b', '[', 'l', 'a', 's', 't', '(', ')', ']'], ['[', '-', '2', ']']] := by decide
+example : stepsGet exTree exSteps1 = some (.str ['x']) ∧ stepsGet exTree exSteps2 = some (.str ['x']) := by decide
+example : (getItem 20 exTree (renderSp .two exSteps1)) = (exTree, .ok (.str ['x'])) := by decide
+example : (getItem 20 exTree (renderSp .rel exSteps2)) = (exTree, .ok (.str ['x'])) := by decide
+example : renderSp .one [.idx (.lit 1) false, .idx (.lit 0) false] = ['/', '[', '1', ']', '[', '0', ']'] ∧
+    stepsGet exList [.idx (.lit 1) false, .idx (.lit 0) false] = some (.str ['x']) := by decide
+-- the relative one-key spelling goes through the plain dictionary lookup
+example : renderSp .rel [.key ['k']] = ['k'] ∧ (getItem 20 exTree ['k']) = (exTree, .ok (.bool true)) := by decide
+
+-- out of range: `/a/b[2]`, `a/b/[-3]/zz`, `[3]` and `[1][-3]` on the list root
+example : stepsMiss exTree [.key ['a'], .key ['b'], .idx (.lit 2) false] = true ∧
+    stepsMiss exTree [.key ['a'], .key ['b'], .idx (.neg 3) true, .key ['z', 'z']] = true ∧
+    stepsMiss exList [.idx (.lit 3) false] = true ∧
+    stepsMiss exList [.idx (.lit 1) false, .idx (.neg 3) false] = true := by decide
+example : (getItem 20 exTree (renderSp .one [.key ['a'], .key ['b'], .idx (.lit 2) false])) = (exTree, .error .IndexError) := by
+  decide
+example : (XPath.get 20 exList (renderSp .rel [.idx (.lit 1) false, .idx (.neg 3) false]) (.str ['D'])) = (exList, .ok (.str ['D'])) := by
+  decide
 
 end N0.C01
